@@ -278,7 +278,7 @@ func TestVerifC05Policies(t *testing.T) {
 				vreport.HarnessError("C05", "policies", fmt.Sprintf("NewLoadBalancer for %s returned %s", c.Policy, got))
 				return src.script
 			}
-			if err := c05Script(lb, f.info, hs, r); err != nil {
+			if err := c05Script(lb, f.info, r); err != nil {
 				vreport.HarnessError("C05", "policies", err.Error())
 				return src.script
 			}
